@@ -10,7 +10,7 @@ from core import hx, exc_name
 from gen import cut
 
 ID = 'C01'
-MODULES = ['Httoop.Props.C01', 'Httoop.Props.C01Headers', 'Httoop.Props.C01Pipeline', 'Httoop.Props.C01Mixed']
+MODULES = ['Httoop.Props.C01', 'Httoop.Props.C01Headers', 'Httoop.Props.C01Pipeline', 'Httoop.Props.C01Mixed', 'Httoop.Props.C01Trailers']
 THEOREMS = [
 	'Httoop.splitOnce_append',
 	'Httoop.contains_append',
@@ -45,6 +45,9 @@ THEOREMS = [
 	'Httoop.Parser.Mixed.ofChunked_out',
 	'Httoop.Parser.Mixed.c01_chunked_good_witness',
 	'Httoop.Parser.Mixed.c01_mixed_fragmentation_witness',
+	'Httoop.Parser.Mixed.dechunk_trailers',
+	'Httoop.Parser.Mixed.goodX_of_chunkedT',
+	'Httoop.Parser.Mixed.c01_trailer_fragmentation_witness',
 ]
 TRUSTED = [
 	'the whole state machine (start line, header block with eager consumption, hooks) is modelled in Model/Parser.lean and compared with the code call by call under every generated fragmentation; the Lean theorems cover the body framing layer for all inputs (Content-Length and chunked with trailers), the header section for well-formed sections, and the whole loop for well-formed pipelines of Content-Length and chunked messages; fragmentation independence on malformed and hostile streams is correspondence + the differential oracle',
@@ -206,6 +209,6 @@ LEVEL_TEXT = ('Theorems for the body framing layer, for ALL states, buffers and 
 	'feeding a Content-Length body in two pieces equals feeding it at once; the chunked reader (sizes, extensions, data, terminators, last chunk, trailer section) is stable under extension of the buffer in each of its three outcomes, '
 	'hence its result does not depend on where the stream is cut (chunked_fragmentation) - no bound on chunk count or sizes. The start line / header block / hook layers are in the executable model and compared with the code under every generated fragmentation; '
 	'The HEADER LAYER: a header section as a writer puts it on the wire (pairwise different canonical names, values without CR and outer white space), followed by anything and cut at ANY point - inside a name, a value, between CR and LF, inside the empty line - gives the same result in two calls as in one (headers_fragmentation): the eager consumption of complete lines is characterised in closed form (parseHeaders_prefix: the fields parsed so far + the unconsumed rest, and what is still to come is exactly the section of the other fields). '
-	'THE WHOLE LOOP for well-formed streams (fragmentation_independent, feedAll_prefix): any number of messages, Content-Length framed and chunked (any chunk sizes and extensions, no trailer fields) mixed, the stream cut into calls in any way, on either side (Props/C01Mixed.lean: the body phase enters the proof only through two facts, that read in one call it completes and that its states form a class closed under waiting on which reading does not depend on the cut - body_length_fragmentation and chunked_fragmentation supply them) - exactly those messages are handed out, in order, and after any prefix exactly the messages wholly contained in it; the states in between are characterised (At: inside the start line / header section / body) and every call is shown to lead from one to the next (run_partial, run_finish). '
+	'THE WHOLE LOOP for well-formed streams (fragmentation_independent, feedAll_prefix): any number of messages, Content-Length framed and chunked (any chunk sizes and extensions, with or without a trailer section whose fields merge: Props/C01Trailers.lean) mixed, the stream cut into calls in any way, on either side (Props/C01Mixed.lean: the body phase enters the proof only through two facts, that read in one call it completes and that its states form a class closed under waiting on which reading does not depend on the cut - body_length_fragmentation and chunked_fragmentation supply them) - exactly those messages are handed out, in order, and after any prefix exactly the messages wholly contained in it; the states in between are characterised (At: inside the start line / header section / body) and every call is shown to lead from one to the next (run_partial, run_finish). '
 	'For arbitrary (malformed, hostile) streams the property is FALSE of the code (F17, F18, F19: kernel-evaluated witnesses); there the model is compared with the code under every generated fragmentation.')
-LEVEL_NOTE = 'Trusted: Lean kernel; the parser model (tested against the code, not verified); extract.py/correspondence. The full-stream theorem holds for well-formed pipelines of Content-Length and chunked messages (without trailer fields); for arbitrary streams the property is false of the code (F17-F19).'
+LEVEL_NOTE = 'Trusted: Lean kernel; the parser model (tested against the code, not verified); extract.py/correspondence. The full-stream theorem holds for well-formed pipelines of Content-Length and chunked messages (trailer sections included); for arbitrary streams the property is false of the code (F17-F19).'
